@@ -60,6 +60,8 @@ fn c_supported_sets() -> Vec<(&'static str, Value)> {
     v.extend(invariant_mutating_sets().into_iter().filter(|(n, _)| *n != "i-starttag"));
     v.push(("c-full", json!({"full": true, "elem":[{"sel":"*","element":[{"op":"get_attr","a":["href"]},{"op":"get_attr","a":["id"]}],"comments":obs,"text":obs}],"doc":[{"doctype":obs,"comments":obs}]})));
     v.push(("c-reads", json!({"elem":[{"sel":"*","element":[{"op":"get_attr","a":["href"]},{"op":"has_attr","a":["ID"]},{"op":"set_attr","a":["a b","v"]},{"op":"set_name","a":["x y"]},{"op":"set_attr","a":["ok","1"]}],"text":obs,"comments":[{"op":"set_text","a":["a-->b"]},{"op":"set_text","a":["fine"]}]}],"doc":[{"doctype":obs,"end":[{"op":"append","a":["<!--e-->"]}]}]})));
+    // streaming handlers whose callback fails (invalid UTF-8 chunk): the callback reports a positive code
+    v.push(("c-stream-bad", json!({"elem":[{"sel":"a, p","element":[{"op":"s_append","a":[["x", {"bytes":[255]}, "y"]]}]},{"sel":"b, div","element":[{"op":"s_before","a":[["t", {"bytes":[195, 40]}], false]}]}]})));
     v.push(("c-stream", json!({"elem":[{"sel":"a, p, b","element":[{"op":"s_before","a":[["<", "x>"], false]},{"op":"s_append","a":[["é", {"bytes":[226,130]},{"bytes":[172]}]]},{"op":"on_end_tag","a":[[{"op":"s_after","a":[["!"]]},{"op":"remove"}]]}],"text":[{"op":"s_replace","a":[["T"]],"last":true}]}]})));
     v
 }
@@ -91,8 +93,8 @@ pub fn job_c17(out_dir: &str, tier: &str, seed: u64) {
             let mut cuts: Vec<usize> = (0..k).map(|_| rng.below(input.len() + 1)).collect(); cuts.sort_unstable();
             if ii % 5 == 0 { cuts = (1..input.len()).collect(); }
             let opts = CapiOpts { free_builder_early: rng.chance(1, 2), free_selectors_early: rng.chance(1, 3), late_str_free: rng.chance(1, 2),
-                                  skip_end: rng.chance(1, 10), double_take_error: rng.chance(1, 2) };
-            let optsj = json!({"free_builder_early": opts.free_builder_early, "free_selectors_early": opts.free_selectors_early, "late_str_free": opts.late_str_free, "skip_end": opts.skip_end, "double_take_error": opts.double_take_error});
+                                  skip_end: rng.chance(1, 10), double_take_error: rng.chance(1, 2), untaken_selector_error: rng.chance(1, 4) };
+            let optsj = json!({"free_builder_early": opts.free_builder_early, "free_selectors_early": opts.free_selectors_early, "late_str_free": opts.late_str_free, "skip_end": opts.skip_end, "untaken_selector_error": opts.untaken_selector_error, "double_take_error": opts.double_take_error});
             pending.push((cfg.clone(), input.clone(), cuts.clone(), opts, optsj));
         }
     }
@@ -133,7 +135,11 @@ pub fn job_c17(out_dir: &str, tier: &str, seed: u64) {
             let mut c = observation("c", &capi::normalise(&ctl), &all);
             for o in [&mut rust, &mut c] { for e in o["evs"].as_array_mut().unwrap() { if e["tt"].is_null() { e["tt"] = json!(""); } } }
             n += 1;
-            let rec = json!({"id": format!("c17-{n}"), "compare": true, "api": api_history(&ctl), "rust": rust, "c": c});
+            // the message of the first failing write / end: the C side's last-error string next to the Display of the
+            // error the Rust API returns for the same call (compared for failures whose text does not come from a handler)
+            let cm = ctl.iter().find(|e| e["e"] == "ret" && e["res"] != "ok" && e.get("cmsg").is_some()).map(|e| json!({"res": e["res"], "m": e["cmsg"].as_str().unwrap_or("")})).unwrap_or(json!({"res": "", "m": ""}));
+            let rm = rtl.iter().find(|e| e["e"] == "ret" && e["res"] != "ok" && e.get("emsg").is_some()).map(|e| json!({"res": e["res"], "m": e["emsg"].as_str().unwrap_or("")})).unwrap_or(json!({"res": "", "m": ""}));
+            let rec = json!({"id": format!("c17-{n}"), "compare": true, "api": api_history(&ctl), "rust": rust, "c": c, "msgs": {"c": cm, "rust": rm}});
             let src = json!({"id": rec["id"], "cfg": cfg, "input": input, "cuts": cuts, "opts": optsj});
             sh.push(&rec, &src, None, true);
         }
